@@ -407,12 +407,15 @@ def step (w : World) (line : String) : World × List String :=
       else
       let (n, evs) := w.node.tcpClose sid
       let (w, shown) := absorb { w with node := n } evs
+      -- as in `C`: a line pushed to a session that no longer exists goes nowhere
+      let shown := shown.filter fun e => match e with | .push s _ => (AL.get? n.sessions s).isSome | _ => true
       (w, evLines (shown.filter (evNotForSid sid)) ++ dumpNode n)
     | none => (w, ["E bad-op"])
   | "HTTP" =>
     match Bytes.parseNat a1 with
     | some sid =>
       let (n, reply, evs) := w.node.http sid (unesc a2)
+      let evs := evs.filter fun e => match e with | .push s _ => (AL.get? n.sessions s).isSome | _ => true
       ({ w with node := n }, s!"H {esc reply}" :: evLines evs ++ dumpNode n)
     | none => (w, ["E bad-op"])
   | "SNAP" =>
